@@ -4,6 +4,7 @@ import LasModel.Driver.Sf
 import LasModel.Driver.VlrD
 import LasModel.Driver.HdrD
 import LasModel.Driver.SpecD
+import LasModel.Driver.FileD
 namespace LasModel.Driver
 
 def dispatch (line : String) : String :=
@@ -13,6 +14,7 @@ def dispatch (line : String) : String :=
   | "vlr" :: rest => (VlrD.handle rest).getD "bad-op"
   | "hdr" :: rest => (HdrD.handle rest).getD "bad-op"
   | "spec" :: rest => (SpecD.handle rest).getD "bad-op"
+  | "file" :: rest => (FileD.handle rest).getD "bad-op"
   | _ => "bad-op"
 
 partial def loop (h : IO.FS.Stream) (out : IO.FS.Stream) : IO Unit := do
